@@ -686,6 +686,9 @@ func (r *crigRig) genAttrs(t *rapid.T, s *crigSession, o crigGenOpts) crigAttrs 
 		n = 1
 	}
 	foreign := []uint32{s.sa.PeerASN, 64700, 64701, 4200000001}
+	if s.sa.IBGP {
+		foreign[0] = 64702 // the peer AS is our own AS on iBGP; own ASNs are only inserted on purpose below
+	}
 	if n > 0 {
 		seg := crigSeg{}
 		for i := 0; i < n; i++ {
